@@ -43,6 +43,8 @@ type script struct {
 	advWnd   uint16
 	rcvScale uint
 	bigRcv   bool
+	burstG   int // forced first out-of-order burst (0 = none): gap, number of segments
+	burstK   int
 }
 
 var wnds = []uint16{0, 1, 7, 50, 200, 1000, 4000, 30000, 65535}
@@ -155,6 +157,48 @@ func (s *script) peerData(kind int) bool {
 	if fin && off+n >= s.pNext {
 		s.peerFin = true
 	}
+	return alive
+}
+
+// oooBurst queues k consecutive segments AHEAD of the next expected byte (in random order, so the
+// pending heap really reorders), then fills the gap: the drain of the out-of-order queue has to
+// deliver all of them at once.  With the peer's sequence numbers placed so that the burst straddles
+// 2^31 or 2^32 the heap's ordering is exercised across the boundary.
+func (s *script) oooBurst(g, k int) bool {
+	type piece struct{ off, n int }
+	var ps []piece
+	off := s.pNext + g
+	for i := 0; i < k; i++ {
+		n := s.mss
+		if s.r.Intn(3) == 0 {
+			n = 1 + s.r.Intn(s.mss)
+		}
+		if off+n > len(s.peer) {
+			n = len(s.peer) - off
+		}
+		if n <= 0 {
+			break
+		}
+		ps = append(ps, piece{off, n})
+		off += n
+	}
+	if len(ps) == 0 || s.pNext+g > len(s.peer) {
+		return s.peerData(0)
+	}
+	end := off
+	for i := len(ps) - 1; i > 0; i-- {
+		j := s.r.Intn(i + 1)
+		ps[i], ps[j] = ps[j], ps[i]
+	}
+	for _, p := range ps {
+		t := netx.TCPSeg{Seq: s.seqOf(p.off), Ack: s.ackNow(), Flags: netx.FlagAck, Wnd: 30000, Payload: s.peer[p.off : p.off+p.n]}
+		if !s.seg(t) {
+			return false
+		}
+	}
+	t := netx.TCPSeg{Seq: s.seqOf(s.pNext), Ack: s.ackNow(), Flags: netx.FlagAck, Wnd: 30000, Payload: s.peer[s.pNext : s.pNext+g]}
+	alive := s.seg(t)
+	s.pNext = end
 	return alive
 }
 
@@ -411,9 +455,12 @@ func (s *script) event() bool {
 		case x < 18:
 			s.count("write")
 			return s.write()
-		case x < 40:
+		case x < 36:
 			s.count("peer-data-inorder")
 			return s.peerData(0)
+		case x < 40:
+			s.count("peer-ooo-burst")
+			return s.oooBurst(1+s.r.Intn(s.mss), 2+s.r.Intn(3))
 		case x < 52:
 			s.count("peer-data-ahead")
 			return s.peerData(1)
@@ -458,7 +505,10 @@ var issChoices = []uint32{0, 1, 0x7fffff00, 0x7ffffff0, 0x7fffffff, 0x80000000, 
 
 var wrapOnly bool
 
-func runScript(seed uint64, idx int, mix string, nev int, kinds map[string]int) (string, error) {
+// neutral: the same script (same random choices, same options, buffers and events) with the initial
+// sequence numbers moved far away from 2^31 and 2^32 - the twin a wrap-adjacent placement is
+// compared with (C14: "behaves identically wherever the ISS places the stream").
+func runScript(seed uint64, idx int, mix string, nev int, kinds map[string]int, neutral bool) (string, error) {
 	r := gen.New(seed*1000003 + uint64(idx))
 	cfg := tcpx.Cfg{PeerWnd: 30000, PeerWS: -1}
 	cfg.ISS = issChoices[r.Intn(len(issChoices))]
@@ -508,20 +558,23 @@ func runScript(seed uint64, idx int, mix string, nev int, kinds map[string]int) 
 		effRcv = uint32(cfg.RcvBuf)
 	}
 	wsel := r.Intn(8)
+	burstG, burstK := 0, 0
 	if wrapOnly {
 		// C14's TCP corollary: every script places a window edge or the stream across 2^32 / 2^31
 		x := r.Intn(100)
 		switch {
-		case x < 45:
+		case x < 36:
 			wsel = 0
-		case x < 60:
+		case x < 48:
 			wsel = 1
-		case x < 75:
+		case x < 60:
 			wsel = 2
-		case x < 85:
+		case x < 68:
 			wsel = 3
-		default:
+		case x < 78:
 			wsel = 4
+		default:
+			wsel = 5
 		}
 		if wsel <= 1 && r.Intn(3) != 0 {
 			// a small receive buffer: a window's worth of data fits in one script
@@ -542,6 +595,23 @@ func runScript(seed uint64, idx int, mix string, nev int, kinds map[string]int) 
 		cfg.ISS = 0xffffffff - 30000 - uint32(r.Intn(3000))
 	case 3:
 		cfg.ISS = uint32(1<<31) - 30000 - 1 - uint32(r.Intn(3000))
+	case 5:
+		// the first event queues 2-4 out-of-order segments whose sequence numbers lie on both
+		// sides of 2^31 (2/3) or 2^32 (1/3), then fills the gap
+		m := cfg.PeerMSS
+		if m > 120 {
+			m = 120
+		}
+		burstG, burstK = 1+r.Intn(m), 2+r.Intn(3)
+		j := burstG + 1 + r.Intn((burstK-1)*m) // stream offset that sits exactly on the boundary
+		b := uint32(1 << 31)
+		if r.Intn(3) == 0 {
+			b = 0
+		}
+		cfg.IRS = b - 1 - uint32(j)
+	}
+	if neutral {
+		cfg.ISS, cfg.IRS = 0x10000000+uint32(idx)*7919, 0x30000000+uint32(idx)*104729
 	}
 	c, err := tcpx.Dial(cfg)
 	if err != nil {
@@ -553,6 +623,7 @@ func runScript(seed uint64, idx int, mix string, nev int, kinds map[string]int) 
 		s.mss = 120
 	}
 	s.bigRcv = bigRcv
+	s.burstG, s.burstK = burstG, burstK
 	plen := 400 + r.Intn(1200)
 	if bigRcv {
 		plen = 300000
@@ -573,7 +644,12 @@ func runScript(seed uint64, idx int, mix string, nev int, kinds map[string]int) 
 	if bigRcv && nev > 26 {
 		nev = 26 // these traces carry 64+ KiB of queued data in every snapshot
 	}
-	for i := 0; i < nev; i++ {
+	alive := true
+	if s.burstK > 0 {
+		s.count("peer-ooo-burst-straddling")
+		alive = s.oooBurst(s.burstG, s.burstK)
+	}
+	for i := 0; alive && i < nev; i++ {
 		if !s.event() {
 			break
 		}
@@ -608,16 +684,25 @@ func main() {
 	mix := flag.String("mix", "c01", "event mix: c01 c02 c04 c05, or a comma-separated list used round robin")
 	nev := flag.Int("events", 30, "events per script")
 	flag.BoolVar(&wrapOnly, "wrap", false, "only wrap-adjacent placements of ISS/IRS and window edges")
+	twin := flag.Bool("twin", false, "run every script a second time with neutral initial sequence numbers and print the pair")
 	flag.Parse()
 	w := bufio.NewWriter(os.Stdout)
 	defer w.Flush()
 	kinds := map[string]int{}
 	mixes := strings.Split(*mix, ",")
 	for i := 0; i < *n; i++ {
-		line, err := runScript(*seed, i, mixes[i%len(mixes)], *nev, kinds)
+		line, err := runScript(*seed, i, mixes[i%len(mixes)], *nev, kinds, false)
 		if err != nil {
 			fmt.Fprintf(w, "# setup-failed script %d: %v\n", i, err)
 			continue
+		}
+		if *twin {
+			line2, err := runScript(*seed, i, mixes[i%len(mixes)], *nev, map[string]int{}, true)
+			if err != nil {
+				fmt.Fprintf(w, "# setup-failed twin script %d: %v\n", i, err)
+				continue
+			}
+			line = "CTwin (" + line + ") (" + line2 + ")"
 		}
 		fmt.Fprintln(w, line)
 	}
